@@ -342,6 +342,14 @@ Fixpoint picks {A} (l : list A) : list (A * list A) :=
 Definition can_first (x : call) (rest : list call) : bool := forallb (fun y => c_inv x <? c_res y) rest.
 Definition matches (s : state) (x : call) : bool := resp_eqb (snd (seq_step s (c_op x))) (c_resp x).
 
+(* [existsb] with a short-circuit: the cases are evaluated by vm_compute, which is call-by-value, so
+   [f a || existsb f l] and [a && b] would evaluate every branch of the search *)
+Fixpoint anyb {A} (f : A -> bool) (l : list A) : bool :=
+  match l with
+  | [] => false
+  | a :: r => if f a then true else anyb f r
+  end.
+
 Fixpoint search (fuel : nat) (s : state) (rem : list call) : bool :=
   match rem with
   | [] => true
@@ -353,9 +361,12 @@ Fixpoint search (fuel : nat) (s : state) (rem : list call) : bool :=
                      (picks rem) with
           | Some xr => search k s (snd xr)
           | None =>
-              existsb (fun xr => can_first (fst xr) (snd xr) && matches s (fst xr)
-                                 && search k (fst (seq_step s (c_op (fst xr)))) (snd xr))
-                      (picks rem)
+              anyb (fun xr => if can_first (fst xr) (snd xr)
+                              then if matches s (fst xr)
+                                   then search k (fst (seq_step s (c_op (fst xr)))) (snd xr)
+                                   else false
+                              else false)
+                   (picks rem)
           end
       end
   end.
